@@ -277,12 +277,15 @@ class FieldMappingTransformationBase(DetectionItemTransformation):
             if isinstance(value, SigmaFieldReference) and (
                 self.processing_item is None or self.processing_item.match_field_in_value(value)
             ):
-                new_values.extend(
-                    (
-                        SigmaFieldReference(mapped_field, value.starts_with, value.ends_with)
-                        for mapped_field in self._apply_field_name(value.field)
-                    )
-                )
+                mapped_values: list[SigmaType] = [
+                    SigmaFieldReference(mapped_field, value.starts_with, value.ends_with)
+                    for mapped_field in self._apply_field_name(value.field)
+                ]
+                if len(mapped_values) > 1 and detection_item.value_linking is ConditionAND:
+                    # one-to-many mappings of a reference stay OR-linked if the values are AND-linked
+                    new_values.append(SigmaExpansion(mapped_values))
+                else:
+                    new_values.extend(mapped_values)
                 fieldref_match = True
             else:
                 new_values.append(value)
